@@ -114,24 +114,44 @@ func (i *Indexer) initBlocks() error {
 
 func (i *Indexer) Notify(_ context.Context, blk *chain.ExecutedBlock) error {
 	i.mu.Lock()
+	consecutive := i.lastHeight == math.MaxUint64 || blk.Block.Hght == i.lastHeight+1
 	i.insertBlockIntoCache(blk)
 	i.mu.Unlock()
 
-	return i.storeBlock(blk)
+	return i.storeBlock(blk, consecutive)
 }
 
 // insertBlockIntoCache add the given block and its transactions to the
 // cache.
 // assumes the write lock is held
-func (i *Indexer) insertBlockIntoCache(blk *chain.ExecutedBlock) {
-	if evictedBlk, ok := i.blockHeightToBlock[blk.Block.Hght-i.blockWindow]; ok {
-		// remove the block from the caches
-		delete(i.blockIDToHeight, evictedBlk.Block.GetID())
-		delete(i.blockHeightToBlock, evictedBlk.Block.GetHeight())
+func (i *Indexer) evictBlockFromCache(height uint64) {
+	evictedBlk, ok := i.blockHeightToBlock[height]
+	if !ok {
+		return
+	}
+	// remove the block from the caches
+	delete(i.blockIDToHeight, evictedBlk.Block.GetID())
+	delete(i.blockHeightToBlock, evictedBlk.Block.GetHeight())
 
-		// remove the transactions from the cache.
-		for _, tx := range evictedBlk.Block.Txs {
-			delete(i.txCache, tx.GetID())
+	// remove the transactions from the cache.
+	for _, tx := range evictedBlk.Block.Txs {
+		delete(i.txCache, tx.GetID())
+	}
+}
+
+func (i *Indexer) insertBlockIntoCache(blk *chain.ExecutedBlock) {
+	if blk.Block.Hght >= i.blockWindow {
+		lastEvictedHeight := blk.Block.Hght - i.blockWindow
+		if i.lastHeight != math.MaxUint64 && blk.Block.Hght != i.lastHeight+1 {
+			// The block does not directly follow the last block (ie. after state sync),
+			// so every block that fell out of the window must be evicted.
+			for height := range i.blockHeightToBlock {
+				if height <= lastEvictedHeight {
+					i.evictBlockFromCache(height)
+				}
+			}
+		} else {
+			i.evictBlockFromCache(lastEvictedHeight)
 		}
 	}
 
@@ -149,7 +169,7 @@ func (i *Indexer) insertBlockIntoCache(blk *chain.ExecutedBlock) {
 
 // storeBlock persist the given block to the database, and deletes a block
 // if it surpasses the retention window
-func (i *Indexer) storeBlock(blk *chain.ExecutedBlock) error {
+func (i *Indexer) storeBlock(blk *chain.ExecutedBlock, consecutive bool) error {
 	executedBlkBytes, err := blk.Marshal()
 	if err != nil {
 		return err
@@ -164,8 +184,14 @@ func (i *Indexer) storeBlock(blk *chain.ExecutedBlock) error {
 	if err := blkBatch.Delete(blockEntryKey(blk.Block.Hght - i.blockWindow)); err != nil {
 		return err
 	}
-
-	return blkBatch.Write()
+	if err := blkBatch.Write(); err != nil {
+		return err
+	}
+	if !consecutive && blk.Block.Hght > i.blockWindow {
+		// Remove every block that fell out of the window while we were not notified.
+		return i.blockDB.DeleteRange(blockEntryKey(0), blockEntryKey(blk.Block.Hght-i.blockWindow))
+	}
+	return nil
 }
 
 func (i *Indexer) GetLatestBlock() (*chain.ExecutedBlock, error) {
